@@ -134,7 +134,8 @@ func runC01(c *report.Ctx) {
 		return strings.HasPrefix(t, "len(") && strings.HasSuffix(t, "== 0")
 	}, "no relevant transaction in the block")
 	perIteration(c, onRelBlk, 4, an.Set(addRelevantTx), "TxStore.AddRelevantTx")
-	existsAtom := func(t string) bool { return strings.Contains(t, "existsTxRecord(") && strings.Contains(t, "!= nil") }
+	existsName := nm(fnOpt(c, pkgTxmgr, "", "existsTxRecord")) + "("
+	existsAtom := func(t string) bool { return strings.Contains(t, existsName) && strings.Contains(t, "!= nil") }
 	mustPassExcept(c, insertMined, an.Set(putTxRecord), "putTxRecord", existsAtom, "record already present (idempotent re-insert)")
 	mustPassExcept(c, insertMined, an.Set(updMinedBal), "updateMinedBalance", existsAtom, "record already present (idempotent re-insert)")
 	mustPassExcept(c, insertMined, an.Set(removeDS), "removeDoubleSpends", existsAtom, "record already present (idempotent re-insert)")
